@@ -1048,3 +1048,173 @@ class PairwiseEndToEnd(EnumContract):
 
 
 REGISTRY.append(PairwiseEndToEnd())
+
+
+# =======================================================================================
+# C06: multi-cube sets -- partition sets line up, categorical-array stack, numeric summaries
+
+
+def _means_response(dims, rs, values):
+    """tabulate respondents over `dims` (CAT only) with a numeric answer per respondent:
+    count / mean per cell; cells without respondents carry {'?': -8}"""
+    shape = [len(d["cats"]) for d in dims]
+    size = 1
+    for s in shape:
+        size *= s
+    n, tot = [0] * size, [0.0] * size
+    for r, v in zip(rs, values):
+        flat = 0
+        for a, s in zip(r["a"], shape):
+            flat = flat * s + a
+        n[flat] += 1
+        tot[flat] += v
+    means = [(tot[k] / n[k]) if n[k] else {"?": -8} for k in range(size)]
+    meta = {"references": {"alias": "num", "name": "num"}, "type": {"class": "numeric"}}
+    return {"result": {
+        "dimensions": [j for d in dims for j in dim_json(d)], "counts": n,
+        "measures": {"count": {"data": n, "n_missing": 0, "metadata": meta},
+                     "mean": {"data": means, "n_missing": 0, "metadata": meta}},
+        "n": len(rs), "missing": 0,
+    }}
+
+
+def gen_cubeset_case(rnd):
+    kind = rnd.choice(["tabbook", "ca", "numeric"])
+    weighted = rnd.random() < 0.5
+    n_cols = rnd.choice([1, 2])
+    cols = []
+    for i in range(n_cols):
+        d = gen_dim(rnd, "CAT", "xy"[i])
+        d.pop("doc_order", None)
+        cols.append(d)
+    if kind == "ca":
+        cat = gen_dim(rnd, "CAT", "a")
+        cat.pop("doc_order", None)
+        row = dict(kind="CA", name="a", n=rnd.choice([1, 2, 3]), cats=cat["cats"])
+    else:
+        row = gen_dim(rnd, "CAT", "a")
+        row.pop("doc_order", None)
+    rs = []
+    for _ in range(rnd.choice([0, 5, 12, 25])):
+        w = rnd.choice([0.5, 1.0, 1.0, 1.5, 2.25]) if weighted else 1.0
+        if kind == "ca":
+            a0 = [rnd.randrange(len(row["cats"])) for _ in range(row["n"])]
+        else:
+            a0 = rnd.randrange(len(row["cats"]))
+        rs.append(dict(a=[a0] + [rnd.randrange(len(c["cats"])) for c in cols], w=w, v=rnd.choice([0, 1, 2.5, 4, 10])))
+    return dict(kind=kind, row=row, cols=cols, rs=rs, weighted=weighted)
+
+
+class CubeSetEndToEnd(EnumContract):
+    name = "e2e:CubeSet partition sets / categorical-array stack / numeric-summary inflation"
+    props = ("C06",)
+    bound = ("multi-cube sets of 2-3 cubes: rows variable CAT (<= 4 categories), categorical array (<= 3 items) or a "
+             "dimension-less numeric summary, 1-2 CAT column variables, <= 25 respondents; seeded sample")
+    clauses = ("sets-line-up", "ca-stack-strand", "ca-stack-slice", "numeric-inflation", "cubeset-exception")
+
+    def cases(self, cfg, seed, thorough):
+        rnd = random.Random(9000 + seed)
+        for _ in range(1500 if thorough else 200):
+            yield gen_cubeset_case(rnd)
+
+    def check_case(self, case, cfg):
+        import numpy as np
+        import warnings
+        from cr.cube.cube import Cube, CubeSet
+
+        warnings.simplefilter("ignore")
+        kind, row, cols, rs, weighted = case["kind"], case["row"], case["cols"], case["rs"], case["weighted"]
+        bad = set()
+        try:
+            if kind == "numeric":
+                vals = [r["v"] for r in rs]
+                resps = [_means_response([], rs, vals)]
+                for ci, c in enumerate(cols):
+                    resps.append(_means_response([c], [dict(a=[r["a"][1 + ci]]) for r in rs], vals))
+                cs = CubeSet(copy.deepcopy(resps), [{} for _ in resps], 1000, 0)
+                sets = cs.partition_sets
+                if len(sets) != 1 or len(sets[0]) != len(resps):
+                    return ["numeric-inflation"]
+                first = sets[0][0]
+                overall = (sum(vals) / len(vals)) if vals else float("nan")
+                if type(first).__name__ != "_Strand" or not close(first.means, [overall]) or not close(first.unweighted_counts, [len(rs)]):
+                    bad.add("numeric-inflation")
+                for ci, c in enumerate(cols):
+                    p = sets[0][1 + ci]
+                    V = valid_elems(c)
+                    exp_m, exp_n = [], []
+                    for j in V:
+                        sel = [r["v"] for r in rs if r["a"][1 + ci] == j]
+                        exp_n.append(len(sel))
+                        exp_m.append(sum(sel) / len(sel) if sel else float("nan"))
+                    if type(p).__name__ != "_Slice" or not close(p.means, [exp_m]) or not close(p.unweighted_counts, [exp_n]):
+                        bad.add("numeric-inflation")
+                    if list(p.column_labels) != ["%s%d" % (c["name"], c["cats"][j]["id"]) for j in V]:
+                        bad.add("numeric-inflation")
+                return sorted(bad)
+            if kind == "ca":
+                resps = [tabulate_ca(row, [dict(a=[r["a"][0]], w=r["w"]) for r in rs], weighted)]
+                # later cubes: items x categories x column variable
+                for ci, c in enumerate(cols):
+                    resps.append(self._ca_x_cat(row, c, [dict(a=[r["a"][0], r["a"][1 + ci]], w=r["w"]) for r in rs], weighted))
+                cs = CubeSet(copy.deepcopy(resps), [{} for _ in resps], 1000, 0)
+                sets = cs.partition_sets
+                if len(sets) != row["n"] or any(len(s) != len(resps) for s in sets):
+                    return ["sets-line-up"]
+                cat = dict(kind="CAT", name=row["name"], cats=row["cats"])
+                for k, pset in enumerate(sets):
+                    sub = [dict(a=[r["a"][0][k]], w=r["w"]) for r in rs]
+                    q = Cube(tabulate([cat], sub, weighted), population=1000).partitions[0]
+                    for nm in ("counts", "unweighted_counts", "table_proportions", "unweighted_bases"):
+                        if type(pset[0]).__name__ != "_Strand" or not close(getattr(pset[0], nm), getattr(q, nm)):
+                            bad.add("ca-stack-strand")
+                    for ci, c in enumerate(cols):
+                        sub2 = [dict(a=[r["a"][0][k], r["a"][1 + ci]], w=r["w"]) for r in rs]
+                        q2 = Cube(tabulate([cat, c], sub2, weighted), population=1000).partitions[0]
+                        p2 = pset[1 + ci]
+                        for nm in ("counts", "unweighted_counts", "column_proportions", "row_proportions", "columns_margin"):
+                            if type(p2).__name__ != "_Slice" or not close(getattr(p2, nm), getattr(q2, nm)):
+                                bad.add("ca-stack-slice")
+                return sorted(bad)
+            # tabbook: rows variable strand + rows x column slices, one partition set
+            resps = [tabulate([row], [dict(a=[r["a"][0]], w=r["w"]) for r in rs], weighted)]
+            for ci, c in enumerate(cols):
+                resps.append(tabulate([row, c], [dict(a=[r["a"][0], r["a"][1 + ci]], w=r["w"]) for r in rs], weighted))
+            cs = CubeSet(copy.deepcopy(resps), [{} for _ in resps], 1000, 0)
+            sets = cs.partition_sets
+            if len(sets) != 1 or len(sets[0]) != len(resps):
+                return ["sets-line-up"]
+            V = valid_elems(row)
+            W = [wsum(rs, lambda r, i=i: r["a"][0] == i) for i in V]
+            if type(sets[0][0]).__name__ != "_Strand" or not close(sets[0][0].counts, W):
+                bad.add("sets-line-up")
+            for ci, c in enumerate(cols):
+                C = valid_elems(c)
+                exp = [[wsum(rs, lambda r, i=i, j=j: r["a"][0] == i and r["a"][1 + ci] == j) for j in C] for i in V]
+                p = sets[0][1 + ci]
+                if type(p).__name__ != "_Slice" or (C and not close(p.counts, exp)):
+                    bad.add("sets-line-up")
+        except Exception as e:
+            bad.add("cubeset-exception:%s" % type(e).__name__)
+        return sorted(bad)
+
+    @staticmethod
+    def _ca_x_cat(ca, c, rs, weighted):
+        n, k, m = ca["n"], len(ca["cats"]), len(c["cats"])
+        unw, wgt = [0.0] * (n * k * m), [0.0] * (n * k * m)
+        for r in rs:
+            for i in range(n):
+                flat = (i * k + r["a"][0][i]) * m + r["a"][1]
+                unw[flat] += 1
+                wgt[flat] += r["w"]
+        nn = len(rs)
+        return {"result": {
+            "dimensions": _ca_json(ca) + dim_json(c), "counts": [int(x) for x in unw],
+            "measures": {"count": {"data": wgt if weighted else [int(x) for x in unw], "n_missing": 0}},
+            "n": nn, "missing": 0,
+            "filtered": {"unweighted_n": nn, "weighted_n": sum(r["w"] for r in rs)},
+            "unfiltered": {"unweighted_n": nn, "weighted_n": sum(r["w"] for r in rs)},
+        }}
+
+
+REGISTRY.append(CubeSetEndToEnd())
